@@ -149,6 +149,7 @@ func seqProfile(prop string, g *Gen, cfg *Config, rng *SplitMix) (steps int) {
 		}
 	case "C05":
 		g.RepeatPct = 25
+		g.EditAgainPct = 25
 		g.W["compact"] = 12
 		g.Text = "unicode"
 	case "C12":
@@ -276,7 +277,32 @@ func runSeqGenerated(bin, prop string, seed uint64) (rep *RunReport) {
 		// property's quantifier all the same)
 		tornAt = rng.Intn(n)
 	}
+	// a write cut exactly one byte short: the last event is whole, only its
+	// newline is missing. Readers show it; whatever is shown must stay
+	unterminateAt := -1
+	if rng.Chance(1, 4) || prop == "C20" && rng.Chance(1, 3) {
+		unterminateAt = 1 + rng.Intn(n)
+	}
 	for i := 0; i < n; i++ {
+		if unterminateAt >= 0 && i >= unterminateAt {
+			unterminateAt = -1
+			if ts := r.M.Tasks(); prop == "C20" && len(ts) > 0 {
+				// the event that loses its newline is a result, half of the
+				// time one with a long path (a line longer than a tail scan's
+				// buffer)
+				c := &Cmd{Op: "set", Mode: "json", ID: ts[rng.Intn(len(ts))].ID, RSum: sp(g.text("title"))}
+				c.RPath = sp(goodFiles[rng.Intn(len(goodFiles))])
+				if rng.Chance(1, 2) {
+					c.RPath = sp(goodFiles[len(goodFiles)-1])
+				}
+				rs := Step{Cmd: c}
+				sc.Steps = append(sc.Steps, rs)
+				r.ExecStep(rs)
+			}
+			ds := Step{Disk: &DiskOp{Kind: "tail_unterminated"}}
+			sc.Steps = append(sc.Steps, ds)
+			r.ExecStep(ds)
+		}
 		st := g.Next(r.M)
 		if i == tornAt {
 			st = Step{Disk: &DiskOp{Kind: "tail_partial_batch"}}
